@@ -226,6 +226,67 @@ dump_info(void)
 #endif
 
 
+#ifdef KJN_LBZIP2_VERIF
+/* Verification hook H3: state dump and queue capacity assertions. */
+#include <stdio.h>
+static unsigned verif_cap_input, verif_cap_scan, verif_cap_retr, verif_cap_emit,
+  verif_cap_unord, verif_cap_order, verif_cap_reord;
+#define VERIF_POS(p) (uintmax_t)(p).major, (uintmax_t)(p).minor
+void
+expand_verif_dump(FILE *fp)
+{
+  unsigned i;
+
+  if (size(input_q) > verif_cap_input || size(scan_q) > verif_cap_scan ||
+      size(retr_q) > verif_cap_retr || size(emit_q) > verif_cap_emit ||
+      size(unord_q) > verif_cap_unord || size(order_q) > verif_cap_order ||
+      size(reord_q) > verif_cap_reord || work_units > num_worker ||
+      out_slots > total_out_slots)
+    abort();
+  if (fp == NULL)
+    return;
+  fprintf(fp, "X head=%ju tail=%ju ptok=%d pdone=%d ppos=%ju.%ju poffs=%ju plive=%u roffs=%ju eofm=%u",
+          head_offs, tail_offs, (int)parse_token, (int)parsing_done,
+          VERIF_POS(parser_bs.pos), parser_bs.offset, parser_bs.live,
+          reord_offs, eof_missing);
+  fprintf(fp, " inq=");
+  for (i = 0; i < size(input_q); i++) {
+    struct in_blk *b = dq_get(input_q, i);
+    fprintf(fp, "%s%ju/%zu/%u", i ? "," : "", b->offset, b->size, b->ref_count);
+  }
+  fprintf(fp, " scan=");
+  for (i = 0; i < size(scan_q); i++)
+    fprintf(fp, "%s%ju.%ju/%ju", i ? "," : "", VERIF_POS(scan_q.root[i]->pos),
+            scan_q.root[i]->offset);
+  fprintf(fp, " retr=");
+  for (i = 0; i < size(retr_q); i++) {
+    struct retr_blk *r = retr_q.root[i];
+    fprintf(fp, "%s%ju.%ju/%ju.%ju/%ju/%s", i ? "," : "", VERIF_POS(r->base),
+            VERIF_POS(r->curr_pos.pos), r->curr_pos.offset,
+            r->unord_link == NULL ? "m" : r->unord_link->complete ?
+            (r->unord_link->legitimate ? "cl" : "cn") : "s");
+  }
+  fprintf(fp, " emit=");
+  for (i = 0; i < size(emit_q); i++)
+    fprintf(fp, "%s%ju.%ju/%d", i ? "," : "", VERIF_POS(emit_q.root[i]->base),
+            emit_q.root[i]->status);
+  fprintf(fp, " reord=");
+  for (i = 0; i < size(reord_q); i++)
+    fprintf(fp, "%s%ju.%ju/%d/%zu", i ? "," : "", VERIF_POS(reord_q.root[i]->base),
+            reord_q.root[i]->status, reord_q.root[i]->size);
+  fprintf(fp, " order=");
+  for (i = 0; i < size(order_q); i++)
+    fprintf(fp, "%s%ju.%ju", i ? "," : "", VERIF_POS(dq_get(order_q, i).base));
+  fprintf(fp, " unord=");
+  for (i = 0; i < size(unord_q); i++)
+    fprintf(fp, "%s%ju.%ju/%d/%ju", i ? "," : "", VERIF_POS(unord_q.root[i]->base),
+            (int)unord_q.root[i]->complete, unord_q.root[i]->end_pos.offset);
+  fprintf(fp, " caps=%u,%u,%u,%u,%u,%u,%u", verif_cap_input, verif_cap_scan,
+          verif_cap_retr, verif_cap_emit, verif_cap_unord, verif_cap_order,
+          verif_cap_reord);
+}
+#endif
+
 static struct detached_bitstream
 bits_init(uintmax_t offset)
 {
@@ -887,6 +948,16 @@ init(void)
                         work_units + out_slots - UNORD_THRESH : 0));
   deque_init(order_q, work_units + out_slots);
   pqueue_init(reord_q, out_slots);
+#ifdef KJN_LBZIP2_VERIF
+  verif_cap_input = in_slots;
+  verif_cap_scan = in_slots;
+  verif_cap_retr = work_units;
+  verif_cap_emit = work_units;
+  verif_cap_unord = (work_units + out_slots > UNORD_THRESH ?
+                     work_units + out_slots - UNORD_THRESH : 0);
+  verif_cap_order = work_units + out_slots;
+  verif_cap_reord = out_slots;
+#endif
 
   head_offs = 0;
   tail_offs = 0;
